@@ -7,6 +7,7 @@
 #include <stdio.h>
 #include <string.h>
 #include <stdlib.h>
+#include <ctype.h>
 #include <algorithm>
 
 namespace sim {
@@ -33,6 +34,11 @@ Profile GetProfile(const std::string& name, bool thorough) {
     p.pm_cmd_fail = 150; p.gen.features |= F_RSP | F_HOSTILE_NAMES;
   } else if (name == "C20") {
     p.pm_cmd_fail = 120; p.pm_tty = 400; p.hostile_output = true; p.gen.features |= F_CONSOLE;
+  } else if (name == "C18") {
+    p.w_clean = 8; p.w_cleandead = 4; p.w_manifest_edit = 4; p.w_build = 8; p.w_del_out = 2; p.pm_cmd_fail = 60;
+    p.gen.features |= F_GENERATOR | F_DYNDEP | F_RSP | F_DEPFILE;
+  } else if (name == "C19") {
+    p.w_tool_ro = 8; p.w_dry = 6; p.w_build = 6; p.pm_cmd_fail = 40; p.gen.features |= F_HOSTILE_NAMES;
   } else if (name == "C13") {
     p.pm_cmd_fail = 80; p.pm_interrupt = 50; p.pm_crash = 100; p.pm_torn = 100; p.pm_io_error = 150; p.damage = true;
     p.pm_tty = 300; p.hostile_output = true;
@@ -415,6 +421,432 @@ struct Driver {
     CheckRecovery(r);
   }
 
+  // ---------------------------------------------------------------- tools (C18, C19)
+  static bool StrictJson(const std::string& s, size_t& i, int depth) {
+    auto ws = [&]() { while (i < s.size() && (s[i] == ' ' || s[i] == '\n' || s[i] == '\t' || s[i] == '\r')) i++; };
+    ws();
+    if (i >= s.size() || depth > 50) return false;
+    if (s[i] == '{') {
+      i++; ws();
+      if (i < s.size() && s[i] == '}') { i++; return true; }
+      for (;;) {
+        ws();
+        if (i >= s.size() || s[i] != '"' || !StrictJson(s, i, depth + 1)) return false;
+        ws();
+        if (i >= s.size() || s[i] != ':') return false;
+        i++;
+        if (!StrictJson(s, i, depth + 1)) return false;
+        ws();
+        if (i < s.size() && s[i] == ',') { i++; continue; }
+        if (i < s.size() && s[i] == '}') { i++; return true; }
+        return false;
+      }
+    }
+    if (s[i] == '[') {
+      i++; ws();
+      if (i < s.size() && s[i] == ']') { i++; return true; }
+      for (;;) {
+        if (!StrictJson(s, i, depth + 1)) return false;
+        ws();
+        if (i < s.size() && s[i] == ',') { i++; continue; }
+        if (i < s.size() && s[i] == ']') { i++; return true; }
+        return false;
+      }
+    }
+    if (s[i] == '"') {
+      i++;
+      while (i < s.size()) {
+        unsigned char c = (unsigned char)s[i];
+        if (c == '"') { i++; return true; }
+        if (c < 0x20) return false;           // control characters must be escaped
+        if (c == '\\') {
+          i++;
+          if (i >= s.size()) return false;
+          char e = s[i];
+          if (e == 'u') {
+            for (int k = 1; k <= 4; k++) if (i + k >= s.size() || !isxdigit((unsigned char)s[i + k])) return false;
+            i += 4;
+          } else if (!strchr("\"\\/bfnrt", e)) return false;
+        }
+        i++;
+      }
+      return false;
+    }
+    if (s.compare(i, 4, "true") == 0) { i += 4; return true; }
+    if (s.compare(i, 5, "false") == 0) { i += 5; return true; }
+    if (s.compare(i, 4, "null") == 0) { i += 4; return true; }
+    size_t st = i;
+    if (s[i] == '-') i++;
+    while (i < s.size() && (isdigit((unsigned char)s[i]) || s[i] == '.' || s[i] == 'e' || s[i] == 'E' || s[i] == '+' || s[i] == '-')) i++;
+    return i > st;
+  }
+
+  struct FsSnap { std::map<std::string, std::pair<uint64_t, int64_t>> files; std::set<std::string> dirs; };
+  FsSnap Snap() const {
+    FsSnap s;
+    for (auto& kv : w.k.fs.nodes) {
+      if (kv.second->kind == Inode::kFile) s.files[kv.first] = std::make_pair(Hash64(kv.second->data, 7), kv.second->mtime);
+      else if (kv.second->kind == Inode::kDir) s.dirs.insert(kv.first);
+    }
+    return s;
+  }
+  static bool IsLogPath(const std::string& p) {
+    return p.find(".ninja_log") != std::string::npos || p.find(".ninja_deps") != std::string::npos || p.find(".ninja_lock") != std::string::npos;
+  }
+
+  // the world must look the same after a read-only tool or a dry run
+  void CheckUntouched(const InvRecord& r, const FsSnap& before, const std::string& what) {
+    if (!r.spawns.empty()) w.Report("C19", "tool_mutated_world", what + " started " + std::to_string(r.spawns.size()) + " build commands");
+    FsSnap after = Snap();
+    // response files are neither sources, outputs nor depfiles: a dry run writes
+    // and removes them (reported in the evidence, not a violation)
+    std::set<std::string> rsp;
+    for (const Stmt& s : w.sc.stmts) if (s.rsp) rsp.insert("/w/" + s.rsp_path);
+    for (auto& kv : before.files) if (rsp.count(kv.first) && !after.files.count(kv.first)) rr.stats.n["dry_run_removed_rspfile"]++;
+    for (auto& kv : before.files) {
+      if (IsLogPath(kv.first) || rsp.count(kv.first)) continue;
+      auto a = after.files.find(kv.first);
+      if (a == after.files.end()) w.Report("C19", "tool_mutated_world", what + " deleted " + kv.first);
+      else if (a->second != kv.second) w.Report("C19", "tool_mutated_world", what + " modified " + kv.first);
+    }
+    for (auto& kv : after.files)
+      if (!before.files.count(kv.first) && !IsLogPath(kv.first) && !rsp.count(kv.first)) w.Report("C19", "tool_mutated_world", what + " created " + kv.first);
+    // the logs keep their meaning
+    auto same_log = [&](const BuildLogFold& a, const BuildLogFold& b) {
+      if (a.last.size() != b.last.size()) return false;
+      for (auto& kv : a.last) { auto o = b.last.find(kv.first); if (o == b.last.end() || o->second.hash != kv.second.hash || o->second.mtime != kv.second.mtime) return false; }
+      return true;
+    };
+    if (r.log_before.valid_header && !same_log(r.log_before, r.log_after)) w.Report("C19", "tool_mutated_world", what + " changed the meaning of the build log");
+    if (r.deps_before.valid_header) {
+      bool same = r.deps_before.last.size() == r.deps_after.last.size();
+      for (auto& kv : r.deps_before.last) { auto o = r.deps_after.last.find(kv.first); if (o == r.deps_after.last.end() || o->second.mtime != kv.second.mtime || o->second.deps != kv.second.deps) same = false; }
+      if (!same) w.Report("C19", "tool_mutated_world", what + " changed the meaning of the deps log");
+    }
+    rr.stats.n["untouched_checks"]++;
+  }
+
+  std::vector<std::string> SomeTargets(int maxn) {
+    std::vector<std::string> outs = AllOutputs(), t;
+    int n = (int)H((uint32_t)maxn + 1);
+    for (int i = 0; i < n && !outs.empty(); i++) {
+      std::string x = outs[H((uint32_t)outs.size())];
+      if (std::find(t.begin(), t.end(), x) == t.end()) t.push_back(x);
+    }
+    return t;
+  }
+
+  // commands printed as "[a/b] cmd" lines or bare lines
+  static std::vector<std::string> ListedCommands(const std::string& out, bool with_status) {
+    std::vector<std::string> v;
+    size_t i = 0;
+    while (i < out.size()) {
+      size_t nl = out.find('\n', i);
+      if (nl == std::string::npos) nl = out.size();
+      std::string line = out.substr(i, nl - i);
+      i = nl + 1;
+      if (with_status) {
+        size_t b = line.find("] ");
+        if (line.empty() || line[0] != '[' || b == std::string::npos) continue;
+        line = line.substr(b + 2);
+      }
+      if (line.compare(0, 4, "sim ") == 0) v.push_back(line);
+    }
+    return v;
+  }
+
+  void DoDryRun() {
+    if (!w.k.Exists("build.ninja")) { dead = true; return; }
+    InvPlan p;
+    p.stream = ST_INV0 + inv_index++;
+    p.dry = true;
+    p.verbose = true;
+    p.j = 1 + (int)H(4);
+    p.k = 0;
+    p.targets = H(2) ? SomeTargets(2) : std::vector<std::string>();
+    bool pending_dyndep = false;
+    for (auto& d : w.sc.dyndeps) if (d.producer >= 0) pending_dyndep = true;
+    Note("dry run " + PlanText(p));
+    FsSnap before = Snap();
+    InvRecord r = w.RunInvocation(p);
+    Note(ResultText(r));
+    if (getenv("SIM_SHOW_OUTPUT")) Note("  stdout: " + r.res.out + "\n  stderr: " + r.res.err);
+    w.CheckTermination(r);
+    if (r.res.end != ProcResult::kExit) return;
+    CheckUntouched(r, before, "ninja -n");
+    if (r.res.exit_code != 0 || pending_dyndep || r.epochs > 1) return;
+    // truthful: what -n lists is what a real build of the same targets runs
+    bool regen_dirty = false;
+    for (const Stmt& s : w.sc.stmts) if (s.alive && s.regen) regen_dirty = true;
+    if (regen_dirty) return;   // with a manifest generator a dry run stops after announcing the regeneration
+    std::vector<std::string> listed = ListedCommands(r.res.out, true);
+    World f = w.Fork();
+    f.label = "real-after-dry";
+    InvPlan q = p;
+    q.dry = false;
+    q.stream = ST_FORK0 + fork_index++;
+    InvRecord r2 = f.RunInvocation(q);
+    if (!r2.ok()) return;
+    std::multiset<std::string> a(listed.begin(), listed.end()), b;
+    bool any_restat = false;
+    for (auto& x : r2.spawns) { b.insert(x.cmd); }
+    for (const Stmt& s : w.sc.stmts) { const DyndepEntry* e = w.sc.DyndepFor(s.id); if (s.alive && (s.restat || (e && e->restat))) any_restat = true; }
+    for (auto& c : b) if (!a.count(c)) w.Report("C19", "listing_mismatch", "the real build ran '" + c.substr(0, 80) + "' which ninja -n did not list");
+    if (!any_restat) for (auto& c : a) if (!b.count(c)) w.Report("C19", "listing_mismatch", "ninja -n listed '" + c.substr(0, 80) + "' which the real build did not run");
+    // listed order respects dependencies
+    std::map<std::string, int> pos;
+    for (size_t i = 0; i < listed.size(); i++) pos[listed[i]] = (int)i;
+    for (const Stmt& s : w.sc.stmts) {
+      if (!s.alive || s.phony) continue;
+      auto me = pos.find(w.sc.CommandLine(s));
+      if (me == pos.end()) continue;
+      for (int q2 : w.StmtClosure(s.id)) {
+        if (w.sc.stmts[q2].phony) continue;
+        auto dep = pos.find(w.sc.CommandLine(w.sc.stmts[q2]));
+        if (dep != pos.end() && dep->second > me->second)
+          w.Report("C19", "listing_mismatch", "ninja -n lists statement " + std::to_string(s.id) + " before its prerequisite " + std::to_string(q2));
+      }
+    }
+    rr.stats.nontrivial["C19"] = rr.stats.nontrivial["C19"] || !listed.empty();
+    rr.stats.n["dry_runs_compared"]++;
+  }
+
+  void DoReadOnlyTool() {
+    if (!w.k.Exists("build.ninja")) { dead = true; return; }
+    static const char* kTools[] = {"commands", "inputs", "multi-inputs", "query", "targets", "rules", "graph", "compdb", "compdb-targets", "deps", "missingdeps"};
+    std::string tool = kTools[H(11)];
+    InvPlan p;
+    p.stream = ST_INV0 + inv_index++;
+    p.j = -1;
+    p.tool.push_back(tool);
+    std::vector<std::string> targets = SomeTargets(2);
+    if (tool == "query" || tool == "compdb-targets") { if (targets.empty()) targets = SomeTargets(2); if (targets.empty()) return; }
+    if (tool == "targets") { uint32_t m = H(4); if (m == 1) p.tool.push_back("all"); else if (m == 2) { p.tool.push_back("depth"); p.tool.push_back("2"); } else if (m == 3) { p.tool.push_back("rule"); } targets.clear(); }
+    if (tool == "rules") { if (H(2)) p.tool.push_back("-d"); targets.clear(); }
+    if (tool == "compdb") { targets.clear(); if (H(2)) p.tool.push_back("-x"); }
+    if (tool == "commands" && H(3) == 0) p.tool.push_back("-s");
+    for (auto& t : targets) p.tool.push_back(t);
+    Note("tool " + tool);
+    FsSnap before = Snap();
+    InvRecord r = w.RunInvocation(p);
+    Note(ResultText(r));
+    if (getenv("SIM_SHOW_OUTPUT")) Note("  stdout: " + r.res.out.substr(0, 2000) + "\n  stderr: " + r.res.err);
+    w.CheckTermination(r);
+    if (r.res.end != ProcResult::kExit) return;
+    CheckUntouched(r, before, "ninja -t " + tool);
+    rr.stats.n["tool_" + tool]++;
+    if (r.res.exit_code != 0) return;
+    if (tool == "compdb" || tool == "compdb-targets") {
+      size_t i = 0;
+      bool ok = StrictJson(r.res.out, i, 0);
+      while (ok && i < r.res.out.size() && (r.res.out[i] == '\n' || r.res.out[i] == ' ')) i++;
+      if (!ok || i != r.res.out.size())
+        w.Report("C19", "invalid_json", "ninja -t " + tool + " printed text that is not valid JSON near byte " + std::to_string(i) + ": " + r.res.out.substr(i > 20 ? i - 20 : 0, 60));
+      rr.stats.nontrivial["C19"] = true;
+    }
+    if (tool == "commands" && std::find(p.tool.begin(), p.tool.end(), "-s") == p.tool.end()) {
+      bool pending_dyndep = false;
+      for (auto& d : w.sc.dyndeps) if (d.producer >= 0 || true) pending_dyndep = pending_dyndep || !w.sc.dyndeps.empty();
+      bool regen = false;
+      for (const Stmt& s : w.sc.stmts) if (s.alive && s.regen) regen = true;
+      if (pending_dyndep || regen) return;
+      // a from-scratch build of the same targets runs exactly these commands
+      World f = w.Fork();
+      f.label = "scratch-after-commands";
+      for (const Stmt& s : f.sc.stmts) if (s.alive) for (auto& o : f.sc.DeclaredOuts(s.id)) f.k.Remove(o);
+      f.k.Remove(f.sc.LogDir() + ".ninja_log");
+      f.k.Remove(f.sc.LogDir() + ".ninja_deps");
+      InvPlan q;
+      q.stream = ST_FORK0 + fork_index++;
+      q.j = 2; q.k = 0;
+      q.targets = targets;
+      InvRecord r2 = f.RunInvocation(q);
+      if (!r2.ok()) return;
+      std::vector<std::string> listed = ListedCommands(r.res.out, false);
+      std::multiset<std::string> a(listed.begin(), listed.end()), b;
+      // (the manual defines the listing as the commands needed to rebuild the
+      // targets; validation targets are built too but are not part of that chain)
+      InvPlan tp; tp.targets = targets;
+      std::set<int> chain = w.Closure(w.EffectiveTargets(tp), false);
+      for (auto& x : r2.spawns) if (chain.count(x.stmt)) b.insert(x.cmd);
+      for (auto& c : b) if (!a.count(c)) w.Report("C19", "listing_mismatch", "a from-scratch build ran '" + c.substr(0, 80) + "' which -t commands did not list");
+      for (auto& c : a) if (!b.count(c)) w.Report("C19", "listing_mismatch", "-t commands listed '" + c.substr(0, 80) + "' which a from-scratch build did not run");
+      rr.stats.n["commands_compared"]++;
+      rr.stats.nontrivial["C19"] = true;
+    }
+  }
+
+  // ---- clean scope model
+  void AddEdgeFiles(const Scenario& sc, const Stmt& s, bool dyndep_loaded, std::set<std::string>* scope) {
+    for (auto& o : s.outs) scope->insert(o);
+    for (auto& o : s.imp_outs) scope->insert(o);
+    if (dyndep_loaded) if (const DyndepEntry* e = sc.DyndepFor(s.id)) for (auto& o : e->imp_outs) scope->insert(o);
+    if (!s.depfile.empty()) scope->insert(s.depfile);
+    if (s.rsp) scope->insert(s.rsp_path);
+  }
+
+  void DoClean() {
+    if (!w.k.Exists("build.ninja")) { dead = true; return; }
+    InvPlan p;
+    p.stream = ST_INV0 + inv_index++;
+    p.j = -1;
+    uint32_t mode = H(5);   // 0 all, 1 all -g, 2 targets, 3 rules, 4 all
+    bool dry = H(5) == 0;
+    p.dry = dry;
+    p.verbose = H(2) == 1;
+    p.tool.push_back("clean");
+    std::vector<std::string> targets;
+    std::vector<int> rules;
+    if (mode == 1) p.tool.push_back("-g");
+    if (mode == 2) { targets = SomeTargets(2); if (targets.empty()) mode = 0; for (auto& t : targets) p.tool.push_back(t); }
+    if (mode == 3) {
+      std::vector<int> cands;
+      for (const Stmt& s : w.sc.stmts) if (s.alive && !s.phony && !s.regen) cands.push_back(s.id);
+      if (cands.empty()) mode = 0;
+      else { p.tool.push_back("-r"); rules.push_back(cands[H((uint32_t)cands.size())]); p.tool.push_back("r" + std::to_string(rules[0])); }
+    }
+    std::string desc = "clean";
+    for (auto& t : p.tool) desc += " " + t;
+    Note("tool " + desc + (dry ? " (-n)" : ""));
+    // which dyndep files can be loaded (they exist)
+    auto dd_loaded = [&](const Stmt& s) { return !s.dyndep.empty() && w.k.Exists(s.dyndep); };
+    std::set<std::string> scope, generator_outs, phony_names;
+    for (const Stmt& s : w.sc.stmts) {
+      if (!s.alive) continue;
+      if (s.phony) { for (auto& o : s.outs) phony_names.insert(o); continue; }
+      if (s.generator) { std::set<std::string> g; AddEdgeFiles(w.sc, s, dd_loaded(s), &g); generator_outs.insert(g.begin(), g.end()); }
+    }
+    if (mode == 0 || mode == 1 || mode == 4) {
+      for (const Stmt& s : w.sc.stmts) {
+        if (!s.alive || s.phony) continue;
+        if (s.generator && mode != 1) continue;
+        AddEdgeFiles(w.sc, s, dd_loaded(s), &scope);
+      }
+    } else if (mode == 2) {
+      std::set<int> seen;
+      std::vector<std::string> todo = targets;
+      while (!todo.empty()) {
+        std::string t = todo.back(); todo.pop_back();
+        int pr = w.sc.Producer(t);
+        if (pr < 0 || !seen.insert(pr).second) continue;
+        const Stmt& s = w.sc.stmts[pr];
+        // a dyndep-added output is only known once the dyndep file is loaded
+        if (!s.phony) AddEdgeFiles(w.sc, s, dd_loaded(s), &scope);
+        for (auto* v : {&s.ins, &s.imp_ins, &s.oo_ins}) for (auto& x : *v) todo.push_back(x);
+        if (dd_loaded(s)) if (const DyndepEntry* e = w.sc.DyndepFor(pr)) for (auto& x : e->imp_ins) todo.push_back(x);
+      }
+    } else {
+      for (int id : rules) AddEdgeFiles(w.sc, w.sc.stmts[id], dd_loaded(w.sc.stmts[id]), &scope);
+    }
+    std::set<std::string> existing_in_scope;
+    for (auto& pth : scope) if (w.k.Exists(pth)) existing_in_scope.insert(pth);
+    InvRecord r = w.RunInvocation(p);
+    Note(ResultText(r));
+    if (getenv("SIM_SHOW_OUTPUT")) Note("  stdout: " + r.res.out.substr(0, 2000) + "\n  stderr: " + r.res.err);
+    w.CheckTermination(r);
+    if (r.res.end != ProcResult::kExit) return;
+    if (!r.spawns.empty()) w.Report("C18", "clean_out_of_scope", "ninja -t clean started build commands");
+    std::set<std::string> removed;
+    for (const Ev& e : r.res.trace) if (e.kind == Ev::kFsRemove) removed.insert(e.s.compare(0, 3, "/w/") == 0 ? e.s.substr(3) : e.s);
+    bool untargeted = mode == 0 || mode == 1 || mode == 4;
+    for (auto& pth : removed) {
+      if (w.sc.IsSource(pth) || ((pth == "build.ninja" || pth == "sub.ninja") && w.sc.Producer(pth) < 0)) { w.Report("C18", "clean_out_of_scope", desc + " deleted the source file " + pth); continue; }
+      if (phony_names.count(pth)) { w.Report("C18", "clean_out_of_scope", desc + " deleted the phony name " + pth); continue; }
+      if (generator_outs.count(pth) && mode != 1) {
+        if (untargeted) w.Report("C18", "clean_out_of_scope", desc + " deleted the generator output " + pth + " without -g");
+        else w.Report("C18", "clean_generator_output_by_target_or_rule", desc + " deleted the generator output " + pth + " without -g");
+        continue;
+      }
+      if (!scope.count(pth)) w.Report("C18", "clean_out_of_scope", desc + " deleted " + pth + " which is not an output, depfile or rspfile of a statement in its scope");
+    }
+    if (dry && !removed.empty()) w.Report("C18", "clean_out_of_scope", "ninja -n -t clean removed files");
+    if (!dry && r.res.exit_code == 0) {
+      for (auto& pth : existing_in_scope) {
+        if (generator_outs.count(pth) && mode != 1 && !untargeted) continue;   // K9 either way
+        if (w.k.Exists(pth)) w.Report("C18", "clean_incomplete", desc + " left " + pth + " in place although it is in scope");
+      }
+    }
+    if (dry) {
+      for (auto& pth : existing_in_scope) {
+        if (generator_outs.count(pth) && mode != 1 && !untargeted) continue;
+        if (r.res.out.find("Remove " + pth) == std::string::npos) w.Report("C18", "clean_incomplete", "ninja -n -t clean did not report " + pth);
+      }
+    }
+    bool outside = false;
+    for (auto& kv : w.k.fs.nodes) if (kv.second->kind == Inode::kFile && kv.first.size() > 3 && !scope.count(kv.first.substr(3))) outside = true;
+    if (!existing_in_scope.empty() && outside) rr.stats.nontrivial["C18"] = true;
+    rr.stats.n["clean_runs"]++;
+  }
+
+  void DoCleanDead() {
+    if (!w.k.Exists("build.ninja")) { dead = true; return; }
+    InvPlan p;
+    p.stream = ST_INV0 + inv_index++;
+    p.j = -1;
+    p.dry = H(5) == 0;
+    p.tool.push_back("cleandead");
+    Note(std::string("tool cleandead") + (p.dry ? " (-n)" : ""));
+    // every path the graph mentions
+    std::set<std::string> in_graph;
+    for (const Stmt& s : w.sc.stmts) {
+      if (!s.alive) continue;
+      for (auto* v : {&s.outs, &s.imp_outs, &s.ins, &s.imp_ins, &s.oo_ins, &s.validations}) for (auto& x : *v) in_graph.insert(x);
+      if (!s.dyndep.empty() && w.k.Exists(s.dyndep)) if (const DyndepEntry* e = w.sc.DyndepFor(s.id)) { for (auto& x : e->imp_outs) in_graph.insert(x); for (auto& x : e->imp_ins) in_graph.insert(x); }
+    }
+    std::string lb;
+    bool hb = w.k.ReadFile(w.sc.LogDir() + ".ninja_log", &lb);
+    BuildLogFold fold = FoldBuildLog(lb, hb);
+    std::set<std::string> scope, existing;
+    for (auto& kv : fold.last) if (!in_graph.count(kv.first)) scope.insert(kv.first);
+    for (auto& x : scope) if (w.k.Exists(x)) existing.insert(x);
+    InvRecord r = w.RunInvocation(p);
+    Note(ResultText(r));
+    if (getenv("SIM_SHOW_OUTPUT")) Note("  stdout: " + r.res.out.substr(0, 2000) + "\n  stderr: " + r.res.err);
+    w.CheckTermination(r);
+    if (r.res.end != ProcResult::kExit) return;
+    std::set<std::string> removed;
+    for (const Ev& e : r.res.trace) if (e.kind == Ev::kFsRemove) removed.insert(e.s.compare(0, 3, "/w/") == 0 ? e.s.substr(3) : e.s);
+    for (auto& pth : removed) {
+      if (w.sc.IsSource(pth) || pth == "build.ninja") w.Report("C18", "clean_out_of_scope", "cleandead deleted the source file " + pth);
+      else if (!scope.count(pth)) w.Report("C18", "clean_out_of_scope", "cleandead deleted " + pth + " which is still part of the graph or was never recorded in the build log");
+    }
+    if (p.dry && !removed.empty()) w.Report("C18", "clean_out_of_scope", "ninja -n -t cleandead removed files");
+    if (!p.dry && r.res.exit_code == 0) for (auto& x : existing) if (w.k.Exists(x)) w.Report("C18", "clean_incomplete", "cleandead left the dead file " + x + " in place");
+    if (!existing.empty()) { rr.stats.nontrivial["C18"] = true; rr.stats.n["cleandead_with_dead_files"]++; }
+    rr.stats.n["cleandead_runs"]++;
+  }
+
+  // remove or rename a leaf statement so that the build log gets dead entries
+  void DoManifestEdit() {
+    std::set<std::string> used;
+    for (const Stmt& s : w.sc.stmts) {
+      if (!s.alive) continue;
+      for (auto* v : {&s.ins, &s.imp_ins, &s.oo_ins, &s.validations, &s.hidden}) for (auto& x : *v) used.insert(x);
+    }
+    for (auto& d : w.sc.dyndeps) for (auto& e : d.entries) for (auto& x : e.imp_ins) used.insert(x);
+    for (auto& x : w.sc.defaults) used.insert(x);
+    std::vector<int> leaves;
+    for (const Stmt& s : w.sc.stmts) {
+      if (!s.alive || s.regen || !s.dyndep.empty()) continue;
+      bool leaf = true;
+      for (auto& o : w.sc.DeclaredOuts(s.id)) if (used.count(o) || w.sc.FindDyndep(o)) leaf = false;
+      if (leaf) leaves.push_back(s.id);
+    }
+    if (leaves.empty()) return;
+    Stmt& s = w.sc.stmts[leaves[H((uint32_t)leaves.size())]];
+    if (H(2) == 0) {
+      s.alive = false;
+      Note("manifest edit: statement " + std::to_string(s.id) + " removed");
+    } else {
+      std::string old = s.outs[0];
+      s.outs[0] += "r";
+      if (!s.depfile.empty()) s.depfile = s.outs[0] + ".d";
+      if (s.rsp) s.rsp_path = s.outs[0] + ".rsp";
+      Note("manifest edit: output " + old + " renamed to " + s.outs[0]);
+    }
+    w.WriteManifest();
+  }
+
   void DoEdit(bool content) {
     std::vector<std::string> s = EditableSources();
     if (s.empty()) return;
@@ -503,7 +935,8 @@ struct Driver {
     for (int i = 0; i < nops && !dead; i++) {
       if (i == 0 && H(8) != 0) { DoBuild(); continue; }
       int ws[] = {prof.w_build, prof.w_edit, prof.w_touch, prof.w_del_out, prof.w_change_cmd, prof.w_change_rsp,
-                  prof.w_regen, prof.w_del_log, prof.w_del_depfile};
+                  prof.w_regen, prof.w_del_log, prof.w_del_depfile, prof.w_clean, prof.w_cleandead, prof.w_tool_ro,
+                  prof.w_dry, prof.w_manifest_edit};
       int total = 0;
       for (int x : ws) total += x;
       int c = (int)H((uint32_t)total), op = 0;
@@ -518,6 +951,11 @@ struct Driver {
         case 6: DoRegen(); break;
         case 7: DoDeleteLog(); break;
         case 8: DoDeleteDepfile(); break;
+        case 9: DoClean(); break;
+        case 10: DoCleanDead(); break;
+        case 11: DoReadOnlyTool(); break;
+        case 12: DoDryRun(); break;
+        case 13: DoManifestEdit(); break;
       }
     }
     // histories end with a build so that every change is exercised
